@@ -3,8 +3,10 @@
 import ast
 
 from .. import AnalysisError
-from ..astutil import src, call_name, dotted, walk_local, try_fold, ancestors, canon
-from ..fn import FA
+from ..astutil import src, call_name, dotted, walk_local, try_fold, ancestors, canon, enclosing_stmt, kwarg
+from ..fn import FA, expand
+from ..normal import canon_expr
+from .. import minieval
 
 SG = 'pydl/pydlutils/spheregroup.py'
 
@@ -59,39 +61,91 @@ def check_rot_agree(ctx, repo, rule):
     return n
 
 
+def _conjuncts(t):
+    t = canon_expr(t)
+    return list(t.values) if isinstance(t, ast.BoolOp) and isinstance(t.op, ast.And) else [t]
+
+
+def _cell_of(e):
+    """(base, dec index, ra index) of a two-level cell subscript base[D][R]."""
+    if isinstance(e, ast.Subscript) and isinstance(e.value, ast.Subscript):
+        return e.value.value, e.value.slice, e.slice
+    return None
+
+
 def check_dedup_wrap(ctx, repo, rule):
     f = repo.func(SG, 'chunks.assign')
     fa = FA(f)
-    apps = [c for c in walk_local(f.node) if isinstance(c, ast.Call) and call_name(c) == 'append' and 'chunkList' in src(c.func.value)]
+    apps = [c for c in walk_local(f.node) if isinstance(c, ast.Call) and call_name(c) == 'append' and _cell_of(c.func.value) is not None
+            and 'chunkList' in src(_cell_of(c.func.value)[0])]
     ctx.need(apps, 'chunks.assign: insertion into chunkList not found')
+    sites = []           # (statement, cell index expression, innermost loop, what)
     for c in apps:
-        cell = src(c.func.value).replace('self.chunkList', '')
-        guard = None
+        base, D, R = _cell_of(c.func.value)
+        # the already-entered flag: a conjunct `not FLAG[D][R]` on the way to the append, FLAG[D][R] = True in the guarded region
+        guard = flag = None
         child = c
         for a in ancestors(c):
             if isinstance(a, ast.If) and any(child is x or child in list(ast.walk(x)) for x in a.body):
-                if isinstance(a.test, ast.UnaryOp) and isinstance(a.test.op, ast.Not) and src(a.test.operand).endswith(cell) and 'Done' in src(a.test.operand):
-                    guard = a
+                for cj in _conjuncts(a.test):
+                    if isinstance(cj, ast.UnaryOp) and isinstance(cj.op, ast.Not) and _cell_of(cj.operand) is not None:
+                        b2, d2, r2 = _cell_of(cj.operand)
+                        if src(d2) == src(D) and src(r2) == src(R) and isinstance(b2, ast.Name):
+                            guard, flag = a, cj.operand
+            if isinstance(a, (ast.For, ast.While)):
+                break
             child = a
-        set_done = guard is not None and any(isinstance(st, ast.Assign) and src(st.targets[0]) == src(guard.test.operand) and try_fold(st.value) is True
-                                             for st in guard.body)
-        is_set = False
-        ctx.check(rule, guard is not None and set_done, f, c,
-                  'a point is entered at most once per cell: append guarded by `not %s`, which is then set' % (src(guard.test.operand) if guard else '?'),
+        set_done = None
+        if guard is not None:
+            for st in walk_local(guard):
+                if isinstance(st, ast.Assign) and len(st.targets) == 1 and src(st.targets[0]) == src(flag) and try_fold(st.value) is True \
+                        and any(st is x or st in list(ast.walk(x)) for x in guard.body):
+                    set_done = st
+        ctx.check(rule, guard is not None and set_done is not None, f, c,
+                  'a point is entered at most once per cell: append guarded by `not %s`, which is then set' % (src(flag) if flag is not None else '?'),
                   msg='chunks.assign appends the point to a cell without the already-entered test: when the wrapped cell range aliases (few RA cells, '
                       'polar slices) the point is listed several times and each of its pairs is returned several times', construct='unguarded cell insertion')
-    # wrap arithmetic
-    wraps = [n for n in walk_local(f.node) if isinstance(n, ast.If) and src(n.test) == 'raChunk < 0']
-    ok = bool(wraps)
-    for w in wraps:
-        lo = src(w.body[0].value).replace(' ', '') if w.body and isinstance(w.body[0], ast.Assign) else ''
-        hi_if = w.orelse[0] if w.orelse and isinstance(w.orelse[0], ast.If) else None
-        hi = src(hi_if.body[0].value).replace(' ', '') if hi_if is not None and isinstance(hi_if.body[0], ast.Assign) else ''
-        if lo != '(raChunk+self.nRa[decChunk])%self.nRa[decChunk]' or hi != '(raChunk-self.nRa[decChunk])%self.nRa[decChunk]' \
-                or src(hi_if.test).replace(' ', '') != 'raChunk>self.nRa[decChunk]-1':
-            ok = False
-    ctx.check(rule, ok, f, wraps[0] if wraps else f.node, 'cells below 0 / above nRa-1 wrap around the RA circle (%d sites)' % len(wraps),
-              msg='the RA wrap of out-of-range cell numbers in chunks.assign changed', construct='assign wrap arithmetic')
+        st = c
+        while not isinstance(st, ast.stmt):
+            st = st._parent
+        loop = next((a for a in ancestors(c) if isinstance(a, ast.For)), None)
+        sites.append((st, R, D, loop, 'insertion into the cell list'))
+        if flag is not None:
+            for x in walk_local(f.node):
+                if isinstance(x, ast.Assign) and len(x.targets) == 1 and _cell_of(x.targets[0]) is not None \
+                        and src(_cell_of(x.targets[0])[0]) == src(_cell_of(flag)[0]) and isinstance(x.value, ast.Constant):
+                    lp = next((a for a in ancestors(x) if isinstance(a, ast.For)), None)
+                    sites.append((x, _cell_of(x.targets[0])[2], _cell_of(x.targets[0])[1], lp,
+                                  'the already-entered flag is %s' % ('set' if x.value.value else 'cleared')))
+    # wrap arithmetic, decided by enumeration: for n RA cells (n = 1..5) and every raw cell number r the margin loops can produce
+    # (-2 .. n+1) each site must address cell r mod n, and must be reached
+    for st, R, D, loop, what in sites:
+        ctx.need(loop is not None and isinstance(loop.target, ast.Name), 'chunks.assign: loop over raw RA cell numbers not found')
+        rvar = loop.target.id
+        nkeys = {src(x).replace(' ', '') for x in walk_local(loop) if isinstance(x, ast.Subscript) and isinstance(x.ctx, ast.Load)
+                 and src(x.value).replace(' ', '') == 'self.nRa' and src(x.slice) == src(D)}
+        ctx.need(nkeys, 'chunks.assign: number of RA cells of the slice (self.nRa[%s]) not used in the loop' % src(D))
+        bad = None
+        try:
+            for n in range(1, 6):
+                for r in range(-2, n + 2):
+                    seen = []
+
+                    def on_stmt(s_, env, seen=seen, st=st, R=R):
+                        if s_ is st:
+                            seen.append(minieval.ev(R, env, opaque))
+                    opaque = {k: n for k in nkeys}
+                    minieval.run(loop.body, {rvar: r}, opaque, on_stmt)
+                    if seen != [r % n] and bad is None:
+                        bad = (n, r, seen)
+        except minieval.Unknown as e:
+            raise AnalysisError('C04/C05: the RA wrap arithmetic of chunks.assign is not an idiom the index evaluator understands (%s)' % e)
+        ctx.check(rule, bad is None, f, st, 'cells below 0 / above nRa-1 wrap around the RA circle where %s (all raw cell numbers -2..n+1, n = 1..5 cells, '
+                  'reach cell r mod n: `%s`)' % (what, src(R)),
+                  msg='the RA wrap of out-of-range cell numbers in chunks.assign is wrong where %s: with %s RA cells the raw cell number %s addresses %s '
+                      'instead of cell %s' % (what, bad[0] if bad else '', bad[1] if bad else '',
+                                              ('cell(s) %s' % bad[2]) if bad and bad[2] else 'no cell', (bad[1] % bad[0]) if bad else ''),
+                  construct='assign wrap arithmetic')
     # getbounds margin loops may step outside [0, nRa-1] so that assign can wrap them
     g = repo.func(SG, 'chunks.getbounds')
     ga = FA(g)
@@ -146,58 +200,251 @@ def check_seam(ctx, repo, rule):
               construct='seam guards: rarange=%s init=%s' % (guard1, guard2))
 
 
+def _x(e, fa):
+    """e with single-definition temporaries expanded, in canonical spelling (for matching only)."""
+    return canon_expr(expand(e, fa, depth=6, calls=True))
+
+
+def _xs(e, fa):
+    return src(_x(e, fa)).replace(' ', '')
+
+
+def _cmp_lt(c):
+    """(left, op, right) of a two-operand comparison, written with < or <= ; None otherwise."""
+    if not (isinstance(c, ast.Compare) and len(c.ops) == 1):
+        return None
+    op = c.ops[0]
+    if isinstance(op, (ast.Lt, ast.LtE)):
+        return c.left, type(op), c.comparators[0]
+    if isinstance(op, (ast.Gt, ast.GtE)):
+        return c.comparators[0], ast.Lt if isinstance(op, ast.Gt) else ast.LtE, c.left
+    return None
+
+
+def _size_of(e):
+    """X of X.size / len(X) / X.shape[0]."""
+    if isinstance(e, ast.Attribute) and e.attr == 'size':
+        return e.value
+    if isinstance(e, ast.Call) and call_name(e) == 'len' and len(e.args) == 1:
+        return e.args[0]
+    if isinstance(e, ast.Subscript) and isinstance(e.value, ast.Attribute) and e.value.attr == 'shape' and try_fold(e.slice) == 0:
+        return e.value.value
+    return None
+
+
+def _empty_list(v):
+    return (isinstance(v, ast.Call) and call_name(v) == 'list' and not v.args) or (isinstance(v, ast.List) and not v.elts)
+
+
+def _np_call(e, names):
+    return isinstance(e, ast.Call) and call_name(e) in names
+
+
 def check_spherematch(ctx, repo):
     f = repo.func(SG, 'spherematch')
     fa = FA(f)
-    # the candidate loop: every candidate of the cell is compared with gcirc; no pre-filter this checker could judge
-    sepdef0 = assign_of(f.node, 'sep')
-    if sepdef0:
-        lp = next((a for a in ancestors(sepdef0[0]) if isinstance(a, ast.For)), None)
-        if lp is not None:
-            extra = [st for st in lp.body if isinstance(st, (ast.If, ast.Continue, ast.Break)) and 'sep' not in src(getattr(st, 'test', st))]
-            if extra or any(isinstance(x, (ast.Continue, ast.Break)) for st in lp.body for x in ast.walk(st)):
-                raise AnalysisError('C04: the candidate loop of spherematch skips candidates before their separation is computed (`%s`): whether that test is '
-                                    'a lower bound of the great-circle distance is geometry this checker cannot judge' % (src(extra[0].test)[:60] if extra and hasattr(extra[0], 'test') else 'continue/break'))
+    P = f.params
+    ctx.need(len(P) >= 7, 'spherematch: parameter list changed')
+    ra1, dec1, ra2, dec2, mlen, csz, maxmatch = P[:7]
+    # ------------------------------------------------------------------ the pair accumulation site
+    apps = [c for c in walk_local(f.node) if isinstance(c, ast.Call) and call_name(c) == 'append' and isinstance(c.func, ast.Attribute)
+            and isinstance(c.func.value, ast.Name) and len(c.args) == 1 and any(isinstance(a, ast.For) for a in ancestors(c))
+            and any(v is not None and _empty_list(v) for d, v in fa.defs(c.func.value))]
+    if not (len(apps) == 3 and len({c.func.value.id for c in apps}) == 3 and len({id(enclosing_stmt(c)._parent) for c in apps}) == 1):
+        raise AnalysisError('C04: spherematch does not accumulate its pairs by three lockstep appends (i, k, separation): not an idiom this checker can judge')
+    sep_apps = [c for c in apps if any(isinstance(x, ast.Call) and call_name(x) == 'gcirc' for x in ast.walk(_x(c.args[0], fa)))]
+    if len(sep_apps) != 1:
+        raise AnalysisError('C04: the separation appended by spherematch is not computed by gcirc: geometry this checker cannot judge')
+    sep_app = sep_apps[0]
+    sepx = _x(sep_app.args[0], fa)
+    gcs = [x for x in ast.walk(sepx) if isinstance(x, ast.Call) and call_name(x) == 'gcirc']
+    gc = gcs[0]
+    units = try_fold(kwarg(gc, 'units', 4))
+    factor = None
+    if sepx is gc:
+        factor = 1.0
+    elif isinstance(sepx, ast.BinOp) and sepx.left is gc and isinstance(sepx.op, ast.Div) and isinstance(try_fold(sepx.right), (int, float)) and try_fold(sepx.right):
+        factor = 1.0 / try_fold(sepx.right)
+    elif isinstance(sepx, ast.BinOp) and isinstance(sepx.op, ast.Mult) and (sepx.left is gc or sepx.right is gc):
+        o = try_fold(sepx.right if sepx.left is gc else sepx.left)
+        factor = o if isinstance(o, (int, float)) else None
+    if units is None or factor is None:
+        raise AnalysisError('C04: the unit conversion of the separation in spherematch (`%s`) is not an idiom this checker can judge' % src(sepx)[:80])
+    args = [kwarg(gc, nm, i) for i, nm in enumerate(('ra1', 'dec1', 'ra2', 'dec2'))]
+    shape_ok = all(isinstance(a, ast.Subscript) and isinstance(a.value, ast.Name) for a in args)
+    want = (ra1, dec1, ra2, dec2)
+    names_ok = shape_ok and all(a.value.id == w for a, w in zip(args, want))
+    xi = src(args[0].slice).replace(' ', '') if shape_ok else None
+    xk = src(args[2].slice).replace(' ', '') if shape_ok else None
+    idx_ok = shape_ok and src(args[1].slice).replace(' ', '') == xi and src(args[3].slice).replace(' ', '') == xk
+    others = [c for c in apps if c is not sep_app]
+    app_i = next((c for c in others if _xs(c.args[0], fa) == xi), None)
+    app_k = next((c for c in others if c is not app_i and _xs(c.args[0], fa) == xk), None)
+    oks = names_ok and idx_ok and app_i is not None and app_k is not None and units == 2 and abs(factor - 1.0 / 3600.0) < 1e-15
+    ctx.check('C04.ALIGN', oks, f, sep_app, '(i, k, sep) are appended together, sep = gcirc(ra1[i], dec1[i], ra2[k], dec2[k]) in degrees',
+              msg='match1/match2/distance12 are not appended in lockstep with the separation of the same pair in degrees: separation is `%s`, '
+                  'appended indices are %s' % (src(sepx)[:90], [src(c.args[0]) for c in others]), construct='pair accumulation')
+    if not oks:
+        return
+    role = {app_i.func.value.id: 'i', app_k.func.value.id: 'k', sep_app.func.value.id: 'sep'}
+    # the first-list point: every index of the first list
+    iloop = next((a for a in ancestors(app_i) if isinstance(a, ast.For) and isinstance(a.target, ast.Name) and a.target.id == xi), None)
+    full = iloop is not None and isinstance(iloop.iter, ast.Call) and call_name(iloop.iter) == 'range' and len(iloop.iter.args) == 1 \
+        and isinstance(_size_of(_x(iloop.iter.args[0], fa)), ast.Name) and _size_of(_x(iloop.iter.args[0], fa)).id in (ra1, dec1)
+    if not full:
+        raise AnalysisError('C04: spherematch does not visit the first list by `for i in range(ra1.size)`: not an idiom this checker can judge')
+    # the candidate: every member of the cell the first-list point was looked up in
+    kx = _x(app_k.args[0], fa)
+    cell = None
+    kloop = None
+    if isinstance(kx, ast.Name):
+        kloop = next((a for a in ancestors(app_k) if isinstance(a, ast.For) and isinstance(a.target, ast.Name) and a.target.id == kx.id), None)
+        if kloop is not None:
+            cell = _x(kloop.iter, fa)
+    elif isinstance(kx, ast.Subscript) and isinstance(kx.slice, ast.Name):
+        kloop = next((a for a in ancestors(app_k) if isinstance(a, ast.For) and isinstance(a.target, ast.Name) and a.target.id == kx.slice.id), None)
+        if kloop is not None and isinstance(kloop.iter, ast.Call) and call_name(kloop.iter) == 'range' and len(kloop.iter.args) == 1:
+            n_of = _size_of(_x(kloop.iter.args[0], fa))
+            if n_of is not None and src(n_of) == src(kx.value):
+                cell = kx.value
+    if cell is None or _cell_of(cell) is None or not (isinstance(_cell_of(cell)[0], ast.Attribute) and _cell_of(cell)[0].attr == 'chunkList'):
+        raise AnalysisError('C04: the candidate loop of spherematch (`%s`) is not a scan of one cell list: not an idiom this checker can judge' % src(kx)[:60])
+    base, D, R = _cell_of(cell)
+
+    def component(e):
+        """(get-call, position) when e is the position-th item of the tuple returned by chunk.get(...)."""
+        if isinstance(e, ast.Subscript) and _np_call(e.value, ('get',)) and isinstance(try_fold(e.slice), int):
+            return e.value, try_fold(e.slice)
+        if isinstance(e, ast.Name):
+            # e may belong to an expanded copy: reaching definitions are those of the same name where the candidate loop reads it
+            e = next((x for x in ast.walk(kloop) if isinstance(x, ast.Name) and x.id == e.id and isinstance(x.ctx, ast.Load)), e)
+            for d, v in fa.defs(e):
+                if isinstance(d, ast.Assign) and len(d.targets) == 1 and isinstance(d.targets[0], ast.Tuple) and _np_call(d.value, ('get',)):
+                    for p_, t in enumerate(d.targets[0].elts):
+                        if isinstance(t, ast.Name) and t.id == e.id:
+                            return d.value, p_
+        return None, None
+    gd, pd = component(D)
+    gr, pr = component(R)
+    ok = gd is not None and gr is gd and (pr, pd) == (0, 1) and len(gd.args) >= 2 and _xs(gd.args[1], fa) == '%s[%s]' % (dec1, xi) \
+        and _xs(gd.func.value, fa) == src(base.value).replace(' ', '')
+    ctx.check('C04.ALIGN', ok, f, kloop, 'candidate k runs over the cell (chunkList[dec slice][ra cell]) the first-list point was looked up in',
+              msg='the candidates of first-list point i are taken from `%s`, which is not the cell chunk.get(ra, dec1[i]) returned as (ra cell, dec slice)'
+                  % src(cell)[:80], construct='candidate index')
+    # no pre-filter this checker could judge
+    skips = [x for x in ast.walk(kloop) if isinstance(x, (ast.Continue, ast.Break))]
+    conds = []
+    child = enclosing_stmt(sep_app)
+    for a in ancestors(child):
+        if a is kloop:
+            break
+        if isinstance(a, ast.If):
+            if not any(child is x or child in list(ast.walk(x)) for x in a.body):
+                skips.append(a)
+            conds.extend(_conjuncts(expand(a.test, fa, depth=6, calls=True)))
+        child = a
+    radius = [c for c in conds if _cmp_lt(c) is not None and src(_cmp_lt(c)[0]).replace(' ', '') == src(sepx).replace(' ', '')]
+    extra = [c for c in conds if c not in radius]
+    if skips or extra:
+        raise AnalysisError('C04: the candidate loop of spherematch skips candidates before their separation is computed (`%s`): whether that test is '
+                            'a lower bound of the great-circle distance is geometry this checker cannot judge' % (src(extra[0])[:60] if extra else 'continue/break/else'))
     # MARGIN
     asg = [c for c in walk_local(f.node) if isinstance(c, ast.Call) and isinstance(c.func, ast.Attribute) and c.func.attr == 'assign']
-    cmp_ = [c for c in walk_local(f.node) if isinstance(c, ast.Compare) and src(c.left) == 'sep']
-    ok = len(asg) == 1 and len(cmp_) == 1 and isinstance(cmp_[0].ops[0], ast.Lt) and src(asg[0].args[2]) == src(cmp_[0].comparators[0]) == f.params[4]
-    ctx.check('C04.MARGIN', ok, f, asg[0] if asg else f.node, 'the margin used to enter second-list points in cells is the match length compared with the separation',
-              msg='the cell margin (%s) and the radius compared with the separation (%s) differ' % (src(asg[0].args[2]) if asg else '?', src(cmp_[0]) if cmp_ else '?'),
-              construct='margin vs radius')
-    cs = [st for st in walk_local(f.node) if isinstance(st, ast.Assign) and src(st.targets[0]) == 'chunksize']
-    forms = sorted(src(st.value).replace(' ', '') for st in cs)
-    ok = forms == ['max(4.0*matchlength,0.1)'] and isinstance(cs[0]._parent, ast.If) and src(cs[0]._parent.test) == 'chunksize is None'
-    ctx.check('C04.MARGIN', ok, f, cs[0] if cs else f.node, 'the default chunk size is at least 4 x match length (%s)' % forms,
-              msg='chunk size definitions %s no longer enforce chunksize >= 4*matchlength' % forms, construct='chunksize %s' % forms)
-    # ALIGN
-    apps = [c for c in walk_local(f.node) if isinstance(c, ast.Call) and call_name(c) == 'append' and src(c.func.value) in ('match1', 'match2', 'distance12')]
-    sepdef = assign_of(f.node, 'sep')
-    oks = len(apps) == 3 and len({id(a._parent._parent) for a in apps}) == 1 and sorted(src(a.args[0]) for a in apps) == ['i', 'k', 'sep']
-    oks = oks and len(sepdef) == 1 and src(sepdef[0].value).replace(' ', '') == 'gcirc(ra1[i],dec1[i],ra2[k],dec2[k],units=2)/3600.0'
-    ctx.check('C04.ALIGN', oks, f, apps[0] if apps else f.node, '(i, k, sep) are appended together, sep = gcirc(ra1[i], dec1[i], ra2[k], dec2[k]) in degrees',
-              msg='match1/match2/distance12 are not appended in lockstep with sep computed from the same (i, k)', construct='pair accumulation')
-    kdef = assign_of(f.node, 'k')
-    ok = len(kdef) == 1 and src(kdef[0].value) == 'chunk.chunkList[decchunk][rachunk][j]'
-    ctx.check('C04.ALIGN', ok, f, kdef[0] if kdef else f.node, 'candidate k is taken from the cell the first-list point was looked up in',
-              msg='candidate index is `%s`' % (src(kdef[0].value) if kdef else '?'), construct='candidate index')
-    # SORTED
-    s = assign_of(f.node, 's')
-    ok = len(s) == 1 and src(s[0].value) == 'odistance12.argsort()'
-    ctx.check('C04.SORTED', ok, f, s[0] if s else f.node, 'output order is argsort of the distance list', msg='the sort index is `%s`' % (src(s[0].value) if s else '?'),
-              construct='sort index')
-    outs = {}
-    for nm, srcnm in (('match1', 'omatch1'), ('match2', 'omatch2'), ('distance12', 'odistance12')):
-        ds = [st for st in assign_of(f.node, nm) if isinstance(st.value, ast.Subscript)]
-        outs[nm] = [src(st.value) for st in ds]
-        ok = ('%s[s]' % srcnm) in outs[nm]
-        ctx.check('C04.SORTED', ok, f, ds[0] if ds else f.node, 'unlimited branch: %s = %s[s]' % (nm, srcnm), msg='unlimited branch: %s is %s' % (nm, outs[nm]),
-                  construct='%s unlimited' % nm)
-    # MAXMATCH-SIB
-    loops = [n for n in walk_local(f.node) if isinstance(n, ast.For) and any('gotten1' in src(x) for x in walk_local(n))]
+    ok = len(asg) == 1 and len(asg[0].args) >= 3 and len(radius) == 1 and _cmp_lt(radius[0])[1] is ast.Lt \
+        and _xs(asg[0].args[2], fa) == src(_cmp_lt(radius[0])[2]).replace(' ', '') == mlen \
+        and [_xs(a, fa) for a in asg[0].args[:2]] == [ra2, dec2]
+    ctx.check('C04.MARGIN', ok, f, asg[0] if asg else f.node, 'the second list is entered in cells with a margin equal to the match length, and a pair is kept when '
+              'its separation is < that length',
+              msg='the cell margin (%s of %s) and the radius test (%s) do not agree with "separation below the match length"'
+                  % (src(asg[0].args[2]) if asg and len(asg[0].args) > 2 else '?', [src(a) for a in asg[0].args[:2]] if asg else '?',
+                     src(radius[0]) if radius else 'none'), construct='margin vs radius')
+    ctor = [c for c in walk_local(f.node) if isinstance(c, ast.Call) and isinstance(c.func, ast.Name) and c.func.id == 'chunks']
+    ctx.need(len(ctor) == 1 and len(ctor[0].args) >= 3, 'spherematch: chunks(...) construction not found')
+    szs = []
+    a3 = ctor[0].args[2]
+    for d, v in (fa.defs(a3) if isinstance(a3, ast.Name) else [(None, a3)]):
+        if v is None:
+            continue
+        vx = _x(v, fa)
+        cands = vx.args if (isinstance(vx, ast.Call) and call_name(vx) == 'max' and isinstance(vx.func, ast.Name)) else [vx]
+        best = None
+        for c in cands:
+            if isinstance(c, ast.BinOp) and isinstance(c.op, ast.Mult):
+                for u, w in ((c.left, c.right), (c.right, c.left)):
+                    if isinstance(u, ast.Name) and u.id == mlen and isinstance(try_fold(w), (int, float)):
+                        best = max(best or 0, try_fold(w))
+        if best is None:
+            raise AnalysisError('C04: the default chunk size of spherematch (`%s`) is not a multiple of the match length this checker can read' % src(v)[:60])
+        szs.append((best, v))
+    ctx.check('C04.MARGIN', bool(szs) and all(b >= 4 for b, v in szs), f, szs[0][1] if szs else ctor[0],
+              'the default chunk size is at least 4 x match length (%s)' % [src(v) for b, v in szs],
+              msg='chunk size definitions %s no longer enforce chunksize >= 4*matchlength' % [src(v) for b, v in szs], construct='chunksize %s' % [src(v) for b, v in szs])
+
+    # ------------------------------------------------------------------ output order
+    def arr_role(e):
+        if _np_call(e, ('array', 'asarray')) and e.args and isinstance(e.args[0], ast.Name):
+            return role.get(e.args[0].id)
+        return None
+
+    def is_sort_index(e):
+        if isinstance(e, ast.Call) and call_name(e) == 'argsort':
+            recv = e.func.value if (isinstance(e.func, ast.Attribute) and not (isinstance(e.func.value, ast.Name) and e.func.value.id in ('np', 'numpy'))) \
+                else (e.args[0] if e.args else None)
+            return recv is not None and arr_role(recv) == 'sep' and not any(k.arg not in ('kind', 'axis') for k in e.keywords)
+        return False
+    order = ('i', 'k', 'sep')
+    rets = [r for r in fa.returns() if isinstance(r.value, ast.Tuple) and len(r.value.elts) == 3]
+    ctx.need(rets, 'spherematch: return of (match1, match2, distance12) not found')
+    unlimited = {0: [], 1: [], 2: []}
+    outputs = {}
+    unknown_out = []
+    for r in rets:
+        for pos, elt in enumerate(r.value.elts):
+            vals = [(d, v) for d, v in fa.defs(elt) if v is not None] if isinstance(elt, ast.Name) else [(r, elt)]
+            for d, v in vals:
+                vx = _x(v, fa)
+                if isinstance(vx, ast.Subscript) and arr_role(vx.value) is not None:
+                    unlimited[pos].append((d, vx))
+                elif _np_call(vx, ('zeros', 'empty', 'zeros_like', 'empty_like')):
+                    outputs[pos] = (elt.id, d)
+                else:
+                    unknown_out.append('C04: spherematch returns `%s` in position %d: not an output form this checker can judge' % (src(v)[:60], pos))
+    for pos in range(3):
+        ctx.need(unlimited[pos], 'spherematch: the unlimited (maxmatch <= 0) output in position %d not found' % pos)
+        for d, vx in unlimited[pos]:
+            ok = arr_role(vx.value) == order[pos] and is_sort_index(vx.slice)
+            ctx.check('C04.SORTED', ok, f, d, 'unlimited branch: output %d is the %s list re-ordered by argsort of the distances' % (pos, order[pos]),
+                      msg='unlimited branch: output %d is `%s`, not the %s list in order of increasing distance' % (pos, src(vx)[:80], order[pos]),
+                      construct='output %d unlimited' % pos)
+    # ------------------------------------------------------------------ maxmatch selection
+    def sorted_item(e, t):
+        """role of A when e is A[S[t]] (A one of the three arrays, S the sort index, t the loop variable)."""
+        if isinstance(e, ast.Subscript) and isinstance(e.slice, ast.Subscript) and is_sort_index(e.slice.value) \
+                and isinstance(e.slice.slice, ast.Name) and e.slice.slice.id == t:
+            return arr_role(e.value)
+        return None
+
+    def counter_side(g):
+        g = next((x for x in walk_local(f.node) if isinstance(x, ast.Name) and x.id == g.id and isinstance(x.ctx, ast.Load)
+                  and any(isinstance(a, ast.For) for a in ancestors(x))), g)
+        vs = [v for d, v in fa.defs(g) if v is not None]
+        v = canon_expr(vs[0]) if vs and all(src(canon_expr(w)) == src(canon_expr(vs[0])) for w in vs) else None
+        if v is not None and _np_call(v, ('zeros',)) and v.args:
+            n_of = _size_of(_x(v.args[0], fa))
+            if isinstance(n_of, ast.Name):
+                return 'i' if n_of.id in (ra1, dec1) else 'k' if n_of.id in (ra2, dec2) else None
+        return None
+    loops = []
+    for lp in walk_local(f.node):
+        if not (isinstance(lp, ast.For) and isinstance(lp.target, ast.Name)):
+            continue
+        for st in lp.body:
+            if isinstance(st, ast.If) and any(isinstance(x, ast.Name) and x.id == maxmatch for x in ast.walk(st.test)):
+                loops.append((lp, st))
     if not loops:
         # no per-point counters at all: is there any sequential computation in the maxmatch branch (or in package helpers it calls)?
-        br = [n for n in walk_local(f.node) if isinstance(n, ast.If) and src(n.test) in ('maxmatch > 0', '0 < maxmatch')]
+        br = [n for n in walk_local(f.node) if isinstance(n, ast.If) and _cmp_lt(canon_expr(n.test)) is not None
+              and src(_cmp_lt(canon_expr(n.test))[2]) == maxmatch and try_fold(_cmp_lt(canon_expr(n.test))[0]) == 0]
         if br:
             seq = [x for b in br[0].body for x in ast.walk(b) if isinstance(x, (ast.For, ast.While))]
             for b in br[0].body:
@@ -212,30 +459,93 @@ def check_spherematch(ctx, repo):
                          'its points, a loop-carried quantity that an element-wise (rank among candidates) formula cannot compute - pairs are dropped '
                          'because of candidates that were themselves rejected')
                 return
+    if unknown_out:
+        raise AnalysisError(unknown_out[0])
     if len(loops) != 2:
-        raise AnalysisError('C04: the sequential counting / filling loops of the maxmatch selection were not found (%d loops touch the per-point counters): '
+        raise AnalysisError('C04: the sequential counting / filling loops of the maxmatch selection were not found (%d loops test the per-point counters): '
                             'not an idiom this checker can judge' % len(loops))
-    conds = []
-    for lp in loops:
-        ifs = [st for st in lp.body if isinstance(st, ast.If)]
-        ctx.need(len(ifs) == 1, 'spherematch: maxmatch loop shape')
-        conds.append(ifs[0])
-    same_cond = ast.dump(conds[0].test) == ast.dump(conds[1].test)
-    want = 'gotten1[omatch1[s[i]]] < maxmatch and gotten2[omatch2[s[i]]] < maxmatch'
-    ups = [[src(st) for st in c.body if isinstance(st, ast.AugAssign) and 'gotten' in src(st)] for c in conds]
-    ctx.check('C04.MAXMATCH-SIB', same_cond and src(conds[0].test) == want and ups[0] == ups[1] == ['gotten1[omatch1[s[i]]] += 1', 'gotten2[omatch2[s[i]]] += 1'],
-              f, conds[1], 'counting and filling loops accept a pair under the same test and count accepted pairs only',
-              msg='the counting loop and the filling loop of the maxmatch selection differ (tests %s / %s, updates %s / %s)'
-                  % (src(conds[0].test)[:50], src(conds[1].test)[:50], ups[0], ups[1]), construct='maxmatch sibling loops')
-    its = [src(lp.iter) for lp in loops]
-    ctx.check('C04.MAXMATCH-SIB', its == ['range(omatch1.size)', 'range(omatch1.size)'], f, loops[0], 'both loops visit s[i] for increasing i (distance order)',
-              msg='maxmatch loops iterate %s' % its, construct='maxmatch loop order')
-    fills = sorted(src(st) for st in conds[1].body if isinstance(st, ast.Assign))
-    ctx.check('C04.MAXMATCH-SIB', fills == ['distance12[nmatch] = odistance12[s[i]]', 'match1[nmatch] = omatch1[s[i]]', 'match2[nmatch] = omatch2[s[i]]'], f, conds[1],
-              'accepted pairs are stored with their own indices and distance', msg='filling loop stores %s' % fills, construct='maxmatch fill')
-    resets = sorted(src(st) for st in walk_local(f.node) if isinstance(st, ast.Assign) and src(st.targets[0]) in ('gotten1[:]', 'gotten2[:]'))
-    ctx.check('C04.MAXMATCH-SIB', resets == ['gotten1[:] = 0', 'gotten2[:] = 0'], f, loops[1], 'counters are reset between the two passes',
-              msg='counters are not reset between the counting and the filling pass', construct='counter reset')
+    desc = []
+    for lp, iff in loops:
+        t = lp.target.id
+        it_ok = isinstance(lp.iter, ast.Call) and call_name(lp.iter) == 'range' and len(lp.iter.args) == 1
+        n_of = _size_of(_x(lp.iter.args[0], fa)) if it_ok else None
+        it_ok = it_ok and n_of is not None and (arr_role(n_of) is not None or is_sort_index(n_of))
+        tests = {}
+        unknown = []
+        for cj in _conjuncts(expand(iff.test, fa, depth=6, calls=True)):
+            c = _cmp_lt(cj)
+            if c is not None and c[1] is ast.Lt and isinstance(c[2], ast.Name) and c[2].id == maxmatch and isinstance(c[0], ast.Subscript) \
+                    and isinstance(c[0].value, ast.Name) and counter_side(c[0].value) is not None:
+                side = counter_side(c[0].value)
+                tests[side] = (c[0].value.id, sorted_item(c[0].slice, t), src(c[0].slice).replace(' ', ''))
+            else:
+                unknown.append(cj)
+        incs = {}
+        stores = {}
+        count = []
+        for k_, st in enumerate(iff.body):
+            if isinstance(st, ast.AugAssign) and isinstance(st.op, ast.Add) and try_fold(st.value) == 1:
+                if isinstance(st.target, ast.Subscript) and isinstance(st.target.value, ast.Name):
+                    incs[st.target.value.id] = src(_x(st.target.slice, fa)).replace(' ', '')
+                elif isinstance(st.target, ast.Name):
+                    count.append((st.target.id, k_))
+            elif isinstance(st, ast.Assign) and len(st.targets) == 1 and isinstance(st.targets[0], ast.Subscript) and isinstance(st.targets[0].value, ast.Name):
+                stores[st.targets[0].value.id] = (src(st.targets[0].slice), sorted_item(_x(st.value, fa), t), k_, st)
+        stray = [st for st in lp.body if st is not iff and any(isinstance(x, (ast.AugAssign,)) or (isinstance(x, ast.Assign) and isinstance(x.targets[0], ast.Subscript))
+                                                               for x in ast.walk(st))]
+        desc.append(dict(lp=lp, iff=iff, it_ok=it_ok, tests=tests, unknown=unknown, incs=incs, stores=stores, count=count, stray=stray))
+    for d_ in desc:
+        if d_['unknown'] or d_['stray'] or iff.orelse:
+            raise AnalysisError('C04: the maxmatch loops of spherematch contain a test or an update this checker cannot judge (`%s`)'
+                                % (src(d_['unknown'][0])[:60] if d_['unknown'] else 'update outside the acceptance test'))
+    fill = [d_ for d_ in desc if d_['stores']]
+    cnt = [d_ for d_ in desc if not d_['stores']]
+    if len(fill) != 1 or len(cnt) != 1:
+        raise AnalysisError('C04: the maxmatch selection is not a counting pass followed by a filling pass: not an idiom this checker can judge')
+    fill, cnt = fill[0], cnt[0]
+
+    def accept_ok(d_):
+        t_ = d_['tests']
+        return set(t_) == {'i', 'k'} and t_['i'][1] == 'i' and t_['k'][1] == 'k' \
+            and d_['incs'] == {t_['i'][0]: t_['i'][2], t_['k'][0]: t_['k'][2]}
+    same = accept_ok(fill) and accept_ok(cnt) and fill['tests'] == cnt['tests']
+    ctx.check('C04.MAXMATCH-SIB', same, f, fill['iff'], 'counting and filling loops accept a pair under the same test (both points used < maxmatch times so far) '
+              'and count accepted pairs only',
+              msg='the counting loop and the filling loop of the maxmatch selection do not both accept a pair exactly when its first-list point and its '
+                  'second-list point were used fewer than maxmatch times, counting accepted pairs only (tests `%s` / `%s`, updates %s / %s)'
+                  % (src(cnt['iff'].test)[:60], src(fill['iff'].test)[:60], sorted(cnt['incs']), sorted(fill['incs'])), construct='maxmatch sibling loops')
+    ctx.check('C04.MAXMATCH-SIB', fill['it_ok'] and cnt['it_ok'], f, cnt['lp'], 'both loops visit the sorted pairs s[i] for increasing i (distance order)',
+              msg='maxmatch loops iterate %s' % [src(d_['lp'].iter) for d_ in desc], construct='maxmatch loop order')
+    ctx.need(len(outputs) == 3, 'spherematch: the maxmatch outputs (three arrays sized by the count) not found')
+    ok = len(fill['count']) == 1 and len(cnt['count']) == 1
+    if ok:
+        n_, kpos = fill['count'][0]
+        for pos in range(3):
+            nm, d = outputs[pos]
+            stv = fill['stores'].get(nm)
+            ok = ok and stv is not None and stv[0] == n_ and stv[1] == order[pos] and stv[2] < kpos
+            sz = _x(d.value, fa) if isinstance(d, ast.Assign) else None
+            ok = ok and sz is not None and sz.args and isinstance(sz.args[0], ast.Name) and sz.args[0].id == cnt['count'][0][0]
+    ctx.check('C04.MAXMATCH-SIB', ok, f, fill['iff'], 'accepted pairs are stored with their own indices and distance at consecutive positions of outputs sized by the count',
+              msg='the filling loop does not store each accepted pair (i, k, distance) at the next free position of the three outputs: %s'
+                  % sorted(src(v[3]) for v in fill['stores'].values()), construct='maxmatch fill')
+    first, second = (cnt, fill) if cnt['lp'].lineno < fill['lp'].lineno else (fill, cnt)
+    between = [st for st in walk_local(f.node) if isinstance(st, ast.stmt) and first['lp'].end_lineno < st.lineno < second['lp'].lineno]
+    resets = set()
+    for st in between:
+        if isinstance(st, ast.Assign) and len(st.targets) == 1:
+            t0 = st.targets[0]
+            if isinstance(t0, ast.Subscript) and isinstance(t0.value, ast.Name) and isinstance(t0.slice, ast.Slice) and t0.slice.lower is None \
+                    and t0.slice.upper is None and try_fold(st.value) == 0:
+                resets.add(t0.value.id)
+            elif isinstance(t0, ast.Name) and (try_fold(st.value) == 0 or _np_call(st.value, ('zeros',))):
+                resets.add(t0.id)
+        elif isinstance(st, ast.Expr) and isinstance(st.value, ast.Call) and call_name(st.value) == 'fill' and isinstance(st.value.func.value, ast.Name) \
+                and st.value.args and try_fold(st.value.args[0]) == 0:
+            resets.add(st.value.func.value.id)
+    need_reset = set(cnt['incs']) | ({fill['count'][0][0]} if fill['count'] and cnt['count'] and fill['count'][0][0] == cnt['count'][0][0] else set())
+    ctx.check('C04.MAXMATCH-SIB', need_reset <= resets, f, second['lp'], 'counters are reset between the two passes (%s)' % sorted(need_reset),
+              msg='%s not reset between the counting and the filling pass' % sorted(need_reset - resets), construct='counter reset')
 
 
 # --------------------------------------------------------------------------------------------- C05
